@@ -41,13 +41,13 @@ func solo(f func()) (out rt.Outcome, stuck bool, libStuck bool) {
 }
 
 type snapshot struct {
-	typ      string
-	contents []any
-	capacity int
-	collator string
-	panicked string
-	stuck    bool
-	fuel     bool
+	typ       string
+	contents  []any
+	capacity  int
+	collator  string
+	panicked  string
+	stuck     bool
+	fuel      bool
 	unordered bool
 }
 
@@ -449,11 +449,21 @@ func finish(f func(r *engine.Rec)) func(r *engine.Rec) {
 
 func units(string) []engine.Unit {
 	us := []engine.Unit{
-		{Name: "seq-int64", Run: finish(func(r *engine.Rec) { sequences(r, typeCfg[int64]{"int64", gen(func(i int) int64 { return int64(100 - 7*i) })}) })},
-		{Name: "seq-uint64", Run: finish(func(r *engine.Rec) { sequences(r, typeCfg[uint64]{"uint64", gen(func(i int) uint64 { return uint64(300 - 11*i) })}) })},
-		{Name: "seq-float64", Run: finish(func(r *engine.Rec) { sequences(r, typeCfg[float64]{"float64", gen(func(i int) float64 { return 50.25 - 3.5*float64(i) })}) })},
-		{Name: "seq-string", Run: finish(func(r *engine.Rec) { sequences(r, typeCfg[string]{"string", gen(func(i int) string { return fmt.Sprintf("s%02d", 40-i) })}) })},
-		{Name: "seq-rune", Run: finish(func(r *engine.Rec) { sequences(r, typeCfg[rune]{"rune", gen(func(i int) rune { return rune('z' - i) })}) })},
+		{Name: "seq-int64", Run: finish(func(r *engine.Rec) {
+			sequences(r, typeCfg[int64]{"int64", gen(func(i int) int64 { return int64(100 - 7*i) })})
+		})},
+		{Name: "seq-uint64", Run: finish(func(r *engine.Rec) {
+			sequences(r, typeCfg[uint64]{"uint64", gen(func(i int) uint64 { return uint64(300 - 11*i) })})
+		})},
+		{Name: "seq-float64", Run: finish(func(r *engine.Rec) {
+			sequences(r, typeCfg[float64]{"float64", gen(func(i int) float64 { return 50.25 - 3.5*float64(i) })})
+		})},
+		{Name: "seq-string", Run: finish(func(r *engine.Rec) {
+			sequences(r, typeCfg[string]{"string", gen(func(i int) string { return fmt.Sprintf("s%02d", 40-i) })})
+		})},
+		{Name: "seq-rune", Run: finish(func(r *engine.Rec) {
+			sequences(r, typeCfg[rune]{"rune", gen(func(i int) rune { return rune('z' - i) })})
+		})},
 		{Name: "seq-bool", Run: finish(func(r *engine.Rec) { sequences(r, typeCfg[bool]{"bool", gen(func(i int) bool { return i%3 == 0 })}) })},
 		{Name: "seq-any", Run: finish(func(r *engine.Rec) {
 			sequences(r, typeCfg[any]{"any", gen(func(i int) any {
@@ -470,7 +480,9 @@ func units(string) []engine.Unit {
 				return i%2 == 0
 			})})
 		})},
-		{Name: "assoc-string", Run: finish(func(r *engine.Rec) { associative(r, "string", gen(func(i int) string { return fmt.Sprintf("k%02d", 40-i) })) })},
+		{Name: "assoc-string", Run: finish(func(r *engine.Rec) {
+			associative(r, "string", gen(func(i int) string { return fmt.Sprintf("k%02d", 40-i) }))
+		})},
 		{Name: "assoc-int64", Run: finish(func(r *engine.Rec) { associative(r, "int64", gen(func(i int) int64 { return int64(100 - 7*i) })) })},
 		{Name: "assoc-rune", Run: finish(func(r *engine.Rec) { associative(r, "rune", gen(func(i int) rune { return rune('z' - i) })) })},
 		{Name: "assoc-float64", Run: finish(func(r *engine.Rec) {
